@@ -391,33 +391,53 @@ def main():
         cgen, templ, common = parse('cgen.py'), parse('template.py'), parse('config_parse_common.py')
         v3, codegen, cli, config = parse('config_parse_v3.py'), parse('codegen.py'), parse('cli.py'), parse('config.py')
         defs = []
+        # Sections 1-4 are independent functions: a function which cannot be translated does not take the
+        # others down with it (its definition is missing, so exactly the theorems about it break)
+        failures = []
+
+        def guarded(title, thunk):
+            try:
+                defs.append((title, thunk()))
+            except Unsupported as exc:
+                failures.append('%s: %s' % (title, exc))
+                defs.append((title, '(* NOT TRANSLATED (fail closed): %s *)' % str(exc).replace('*)', '* )')))
+
         # 1. _ft_c_type
-        f = find_func(cgen, '_ft_c_type', '_CodeGen')
-        argn = [a.arg for a in f.args.args]
-        if argn != ['self', 'ft', 'is_const'] or len(f.args.defaults) != 1 or not isinstance(f.args.defaults[0], ast.Constant) \
-                or f.args.defaults[0].value is not False:
-            raise Unsupported('_ft_c_type: signature changed: %s' % argn)
-        defs.append(('cgen.py _CodeGen._ft_c_type (is_const defaults to False)',
-                     Fun(f, 'self', 'ft_c_type', {'ft': ('ft', 'ft'), 'is_const': ('is_const', 'bool')}, anc).definition()))
+        def s1():
+            f = find_func(cgen, '_ft_c_type', '_CodeGen')
+            argn = [a.arg for a in f.args.args]
+            if argn != ['self', 'ft', 'is_const'] or len(f.args.defaults) != 1 or not isinstance(f.args.defaults[0], ast.Constant) \
+                    or f.args.defaults[0].value is not False:
+                raise Unsupported('_ft_c_type: signature changed: %s' % argn)
+            return Fun(f, 'self', 'ft_c_type', {'ft': ('ft', 'ft'), 'is_const': ('is_const', 'bool')}, anc).definition()
+        guarded('cgen.py _CodeGen._ft_c_type (is_const defaults to False)', s1)
+
         # 2. _loop_var_name
-        f = find_func(cgen, '_loop_var_name')
-        if [a.arg for a in f.args.args] != ['level']:
-            raise Unsupported('_loop_var_name: signature changed')
-        defs.append(('cgen.py _loop_var_name', Fun(f, None, 'loop_var_name', {'level': ('level', 'int')}, anc).definition()))
+        def s2():
+            f = find_func(cgen, '_loop_var_name')
+            if [a.arg for a in f.args.args] != ['level']:
+                raise Unsupported('_loop_var_name: signature changed')
+            return Fun(f, None, 'loop_var_name', {'level': ('level', 'int')}, anc).definition()
+        guarded('cgen.py _loop_var_name', s2)
+
         # 3. _filt_escape_dq
-        f = find_func(templ, '_filt_escape_dq')
-        if [a.arg for a in f.args.args] != ['text']:
-            raise Unsupported('_filt_escape_dq: signature changed')
-        defs.append(('template.py _filt_escape_dq', Fun(f, None, 'escape_dq', {'text': ('text', 'str')}, anc).definition()))
+        def s3():
+            f = find_func(templ, '_filt_escape_dq')
+            if [a.arg for a in f.args.args] != ['text']:
+                raise Unsupported('_filt_escape_dq: signature changed')
+            return Fun(f, None, 'escape_dq', {'text': ('text', 'str')}, anc).definition()
+        guarded('template.py _filt_escape_dq', s3)
+
         # 4. _v3_prefixes_from_v2_prefix
-        f = find_func(common, '_v3_prefixes_from_v2_prefix')
-        if [a.arg for a in f.args.args] != ['v2_prefix']:
-            raise Unsupported('_v3_prefixes_from_v2_prefix: signature changed')
-        nt = [n for n in ast.walk(common) if isinstance(n, ast.Assign) and isinstance(n.targets[0], ast.Name) and n.targets[0].id == '_V3Prefixes']
-        if len(nt) != 1 or not isinstance(nt[0].value, ast.Call) or ast.unparse(nt[0].value.args[1]) != "['identifier', 'file_name']":
-            raise Unsupported('_V3Prefixes is not namedtuple(identifier, file_name)')
-        defs.append(('config_parse_common.py _v3_prefixes_from_v2_prefix -> (identifier, file_name)',
-                     Fun(f, None, 'v3_prefixes_from_v2_prefix', {'v2_prefix': ('v2_prefix', 'str')}, anc).definition()))
+        def s4():
+            f = find_func(common, '_v3_prefixes_from_v2_prefix')
+            if [a.arg for a in f.args.args] != ['v2_prefix']:
+                raise Unsupported('_v3_prefixes_from_v2_prefix: signature changed')
+            nt = [n for n in ast.walk(common) if isinstance(n, ast.Assign) and isinstance(n.targets[0], ast.Name) and n.targets[0].id == '_V3Prefixes']
+            if len(nt) != 1 or not isinstance(nt[0].value, ast.Call) or ast.unparse(nt[0].value.args[1]) != "['identifier', 'file_name']":
+                raise Unsupported('_V3Prefixes is not namedtuple(identifier, file_name)')
+            return Fun(f, None, 'v3_prefixes_from_v2_prefix', {'v2_prefix': ('v2_prefix', 'str')}, anc).definition()
+        guarded('config_parse_common.py _v3_prefixes_from_v2_prefix -> (identifier, file_name)', s4)
         # 5. prefix handling of config_parse_v3._create_config
         f = find_func(v3, '_create_config', '_Parser')
         hits = [n for n in ast.walk(f) if isinstance(n, ast.If) and ast.unparse(n.test) == 'type(prefix_node) is str']
@@ -564,6 +584,8 @@ def main():
     with open(os.path.join(outdir, 'Consts.v'), 'w') as f:
         f.write('\n'.join(o) + '\n')
     print('py2coq: %d definitions, %d constant tables' % (len(defs), len(consts)))
+    for fl in failures:
+        print('py2coq: NOT TRANSLATED (fail closed, its definition is missing from PyFuns.v): %s' % fl)
     return 0
 
 
